@@ -264,6 +264,11 @@ def _index_term(A):
             keys.add(A.term(n.slice, A.cfg.node_containing(n)))
     if len(keys) != 1:
         raise AnalysisError("sub-block index definitions not found")
+    if any(st_[0] in ("call", "callv") for st_ in subterms(list(keys)[0])):
+        raise AnalysisError("add_core: the sub-block index is obtained "
+                            "through a call (e.g. from the region word of "
+                            "get_region_for_chip); that form is not "
+                            "analysed")
     return list(keys)[0]
 
 
@@ -432,8 +437,12 @@ def r3_collapse(program, folder, rep):
                         return p is False
             return False
         okd = any(bit_clear(t, p) for t, p in A.all_facts(n))
-    okl = any((mk_cmp("Eq", LEVEL, ("const", 3)), True) in [
-        (plain(t), p) for t, p in A.all_facts(s_[0])] for s_ in sets)
+    # (levels run 0..3 - checked by R2 - so ``level >= 3`` is ``level == 3``)
+    okl = any(lf_ in [(plain(t), p) for t, p in A.all_facts(s_[0])]
+              for s_ in sets for lf_ in (
+                  (mk_cmp("Eq", LEVEL, ("const", 3)), True),
+                  (mk_cmp("LtE", ("const", 3), LEVEL), True),
+                  (mk_cmp("Lt", ("const", 2), LEVEL), True)))
     flagged = any(t[0] in ("mu", "phi") for s_ in sets
                   for t, p in A.all_facts(s_[0]))
     if flagged and not (oks and okl):
@@ -479,8 +488,12 @@ def r3_collapse(program, folder, rep):
               node=add,
               fail="a child sub-tree is overwritten or released: selections "
                    "held further down (for other cores) are lost")
-    okl = any((mk_cmp("Eq", LEVEL, ("const", 3)), True) in [
-        (plain(t), p) for t, p in A.all_facts(s_[0])] for s_ in sets)
+    # (levels run 0..3 - checked by R2 - so ``level >= 3`` is ``level == 3``)
+    okl = any(lf_ in [(plain(t), p) for t, p in A.all_facts(s_[0])]
+              for s_ in sets for lf_ in (
+                  (mk_cmp("Eq", LEVEL, ("const", 3)), True),
+                  (mk_cmp("LtE", ("const", 3), LEVEL), True),
+                  (mk_cmp("Lt", ("const", 2), LEVEL), True)))
     rep.check(okl, "C12-R3", inst, "at the chip level the chip's bit is set "
               "directly", construct="leaf select", node=add)
     # child array has 16 entries <-> 0xffff
